@@ -1,6 +1,7 @@
 #[cfg(feature = "std")]
 mod blockval;
 mod hooks;
+mod observe;
 mod optval;
 mod registry;
 mod util;
@@ -24,6 +25,8 @@ fn main() {
         ("replay", "blockvalue") => blockval::replay_blockvalue(&args),
         ("replay", "optval") => optval::replay_optval(&args),
         ("rec", "optval") => optval::rec_optval(&args),
+        ("replay", "observe") => observe::replay_observe(&args),
+        ("rec", "observe") => observe::rec_observe(&args),
         ("rec", "wire-bytes") => wire::rec_wire_bytes(&args),
         ("rec", "wire-build") => wire::rec_wire_build(&args),
         ("rec", "wire-limit") => wire::rec_wire_limit(&args),
